@@ -26,7 +26,8 @@ Definition SPEC_COL : list Z :=
   [61402; 1108; 28750; 33823; 7454; 43244; 53865; 12034;
    56951; 27521; 41351; 40901; 12021; 59689; 26798; 17845].
 
-Definition SPEC_RC : list Z :=
+(* (a function of a unit argument only so that the extracted OCaml builds the literal inside a function body) *)
+Definition SPEC_RC_lit (_ : unit) : list Z :=
   [13630775303355457758; 16896927574093233874; 10379449653650130495; 1965408364413093495;
    15232538947090185111; 15892634398091747074; 3989134140024871768; 2851411912127730865;
    8709136439293758776; 3694858669662939734; 12692440244315327141; 10722316166358076749;
@@ -47,6 +48,7 @@ Definition SPEC_RC : list Z :=
    4597649658040514631; 7735563950920491847; 1663379455870887181; 13889298103638829706;
    7375530351220884434; 3502022433285269151; 9231805330431056952; 9252272755288523725;
    10014268662326746219; 15565031632950843234; 1209725273521819323; 6024642864597845108].
+Definition SPEC_RC : list Z := SPEC_RC_lit tt.
 
 (* ---------------------------------------------------------------- S-box layer *)
 Definition fermat_cube (i : Z) : Z := ((i + 1) ^ 3 + 256) mod 257.
